@@ -138,6 +138,7 @@ LTrim(k, s, e, t)   == Ok("ltrim", k, <<s, e>>, t) /\ db' = Nx("ltrim", k, <<s, 
 LClear(k, t)        == Ok("lclear", k, <<>>, t) /\ db' = Nx("lclear", k, <<>>, t).db
 LExpire(k, d, t)    == Ok("lexpire", k, <<d>>, t) /\ db' = Nx("lexpire", k, <<d>>, t).db
 LPersist(k, t)      == Ok("lpersist", k, <<>>, t) /\ db' = Nx("lpersist", k, <<>>, t).db
+LFixKey(k, t)       == Ok("lfixkey", k, <<>>, t) /\ db' = Nx("lfixkey", k, <<>>, t).db
 
 LIdx == {-4, -2, -1, 0, 1, 3}
 NextL ==
@@ -145,7 +146,7 @@ NextL ==
        \/ RPush(k, V1, t) \/ LPop(k, t)
        \/ \E d \in Durs : LExpire(k, d, t)
   \/ \E k \in FullKeys, t \in Times :
-       \/ LPop(k, t) \/ RPop(k, t) \/ LClear(k, t) \/ LPersist(k, t)
+       \/ LPop(k, t) \/ RPop(k, t) \/ LClear(k, t) \/ LPersist(k, t) \/ LFixKey(k, t)
        \/ \E v \in VIds : LPush(k, v, t) \/ RPush(k, v, t)
        \/ \E v, w \in VIds : LPush2(k, v, w, t) \/ RPush2(k, v, w, t)
        \/ \E i \in LIdx, v \in VIds : LSet(k, i, v, t)
@@ -190,6 +191,7 @@ ZRemRangeByLex(k, lo, lk, hi, hk, t) == Ok("zremrangebylex", k, <<lo, lk, hi, hk
 ZClear(k, t)        == Ok("zclear", k, <<>>, t) /\ db' = Nx("zclear", k, <<>>, t).db
 ZExpire(k, d, t)    == Ok("zexpire", k, <<d>>, t) /\ db' = Nx("zexpire", k, <<d>>, t).db
 ZPersist(k, t)      == Ok("zpersist", k, <<>>, t) /\ db' = Nx("zpersist", k, <<>>, t).db
+ZFixKey(k, t)       == Ok("zfixkey", k, <<>>, t) /\ db' = Nx("zfixkey", k, <<>>, t).db
 
 ZScores == {2, 3, -1000004}       \* 1, 1.5 and the extreme class -1e19 (below int64)
 ZIdx == {-3, -1, 0, 1}
@@ -201,7 +203,7 @@ NextZ ==
        \/ ZAdd(k, 2, X1, t) \/ ZClear(k, t)
        \/ \E d \in Durs : ZExpire(k, d, t)
   \/ \E k \in FullKeys, t \in Times :
-       \/ ZClear(k, t) \/ ZPersist(k, t)
+       \/ ZClear(k, t) \/ ZPersist(k, t) \/ ZFixKey(k, t)
        \/ \E s \in ZScores, m \in Subs : ZAdd(k, s, m, t)
        \/ \E s, s2 \in ZScores, m, m2 \in Subs : ZAdd2(k, s, m, s2, m2, t)
        \/ \E m \in Subs : ZIncrBy(k, 1, m, t) \/ ZIncrBy(k, 0, m, t) \/ ZRem(k, m, t)
